@@ -15,7 +15,6 @@ from .model import ALIASES, ClassRef, EnumRef, FuncRef, Model, Unknown
 LOGICS = 'pytableaux.logics'
 PROOF = 'pytableaux.proof'
 RULES = 'pytableaux.proof.rules'
-SYSPREDS = ['Existence', 'Identity']
 ATTRS = ('operator', 'quantifier', 'predicate', 'negated', 'designation')
 
 
@@ -123,87 +122,102 @@ class Logics:
             raise AnalysisError(f'logics.init() patches {sorted(got)} differ from the declared aliases')
 
     def check_inducer(self):
-        "RuleNameAttrInducer must still read as the re-implementation in induce() assumes."
+        """RuleNameAttrInducer is folded, not re-implemented: an MRO-bound copy of the class (its own __init__, build, do_*,
+        found, common_enum) runs on a mock class object of the rule's name, with the Operator / Quantifier /
+        Predicate.System enums as ordered mocks read from lang/lex.py."""
+        from .bind import bound_class
+        from .minieval import Interp, Obj
+        m = self.m
         ref = ClassRef(PROOF, 'RuleNameAttrInducer')
-        g = lambda n: self.m.getattr(ref, n)
-        if g('names') != ATTRS:
-            raise AnalysisError(f'RuleNameAttrInducer.names changed: {g("names")}')
-        if g('doubleneg') != 'DoubleNegation' or g('designates') != ('Undesignated', 'Designated') \
-                or g('negatedstr') != 'Negated':
-            raise AnalysisError('RuleNameAttrInducer indicator strings changed')
-        src = {name: ast.unparse(self.m.func(PROOF, f'RuleNameAttrInducer.{name}')) for name in
-               ('do_operator', 'do_quantifier', 'do_predicate', 'do_negated', 'do_designation', 'found',
-                'common_enum', 'build')}
-        need = {
-            'do_operator': ['self.is_doubleneg', 'self.found(name, self.doubleneg, Operator.Negation)',
-                            'self.common_enum(name, Operator)'],
-            'do_quantifier': ['self.common_enum(name, Quantifier)'],
-            'do_predicate': ['self.common_enum(name, Predicate.System)'],
-            'do_negated': ["self.found(name, '', True)", 'self.todo.startswith(self.negatedstr)',
-                           'self.found(name, self.negatedstr, True)'],
-            'do_designation': ['enumerate(self.designates)', 'self.todo.startswith(indicator)',
-                               'self.found(name, indicator, bool(i))'],
-            'found': ['self.attrs[name] = value', 'self.todo = self.todo.removeprefix(indicator)'],
-            'common_enum': ['for item in it', 'self.todo.startswith(item.name)',
-                            'self.found(name, item.name, item)'],
-            'build': ['for name in self.names', "getattr(self, f'do_{name}')(name)", 'if not self.todo',
-                      'return self.attrs', 'self.attrs[name] = None'],
-        }
-        for fn, frags in need.items():
-            for frag in frags:
-                if frag not in src[fn]:
-                    raise AnalysisError(f'RuleNameAttrInducer.{fn} no longer contains `{frag}`; '
-                                        f'the static re-implementation would be unfaithful')
+        legend_def = next((x for x in ast.walk(m.trees[PROOF]) if isinstance(x, ast.ClassDef) and x.name == 'Legend'), None)
+        if legend_def is None:
+            raise AnalysisError('proof/__init__.py: RuleMeta.Legend not found')
+        legend = {}
+        for st in legend_def.body:
+            if isinstance(st, ast.Assign) and isinstance(st.targets[0], ast.Name) and isinstance(st.value, ast.Constant):
+                legend[st.value.value] = st.targets[0].id
+
+        def Legend(v):
+            if v not in legend:
+                raise ValueError(v)
+            return Obj('Legend.' + legend[v], value=v, name=legend[v])
+        # Predicate.System member order: the literal mapping in lang/lex.py
+        LEXM = 'pytableaux.lang.lex'
+        sysnames = None
+        for x in ast.walk(m.trees[LEXM]):
+            if isinstance(x, ast.Assign) and isinstance(x.targets[0], ast.Name) and x.targets[0].id == 'System' and isinstance(x.value, ast.Call):
+                inner = x.value.args[0] if x.value.args else None
+                if isinstance(inner, ast.Call) and inner.keywords:
+                    sysnames = [k.arg for k in inner.keywords]
+        if not sysnames:
+            raise AnalysisError('lang/lex.py: the Predicate.System member mapping was not found')
+        self.syspreds = sysnames
+
+        class EnumM(list):
+            def __getattr__(s_, n):
+                for x in s_:
+                    if x.name == n:
+                        return x
+                raise AttributeError(n)
+        mk = lambda kind, names: EnumM(Obj(f'{kind}.{n}', name=n, kind=kind) for n in names)
+        Operator, Quantifier, System = mk('Operator', self.lex.operators), mk('Quantifier', self.lex.quantifiers), mk('Predicate', sysnames)
+        it = Interp(dict(Operator=Operator, Quantifier=Quantifier, Predicate=Obj('Predicate', System=System), RuleMeta=Obj('RuleMeta', Legend=Legend)),
+                    where='proof/__init__.py RuleNameAttrInducer')
+        cls_attrs = {}
+        for st in m.clsdef(ref).body:
+            if isinstance(st, ast.Assign) and isinstance(st.targets[0], ast.Name):
+                try:
+                    cls_attrs[st.targets[0].id] = it.ev(st.value, {})
+                except Exception as e:
+                    raise AnalysisError(f'RuleNameAttrInducer.{st.targets[0].id} does not fold: {e}')
+        cls_attrs = {k: staticmethod(v) if callable(v) and not isinstance(v, type) else v for k, v in cls_attrs.items()}
+        self._inducer_cls = bound_class(m, it, ref, with_init=True, extra_ns=cls_attrs)
+
+    def induce(self, name) -> RuleAttrs | None:
+        from .minieval import Raised
+        obj = type(name, (), {})
+        try:
+            attrs = self._inducer_cls(obj).build()
+        except Raised as e:
+            raise AnalysisError(f'RuleNameAttrInducer does not fold for the rule name {name}: {e.text}')
+        except (TypeError, AttributeError, KeyError, ValueError) as e:
+            raise AnalysisError(f'RuleNameAttrInducer does not fold for the rule name {name}: {type(e).__name__}: {e}')
+        if attrs is None:
+            return None
+        out = RuleAttrs()
+        for k, v in attrs.items():
+            if k not in ATTRS:
+                raise AnalysisError(f'RuleNameAttrInducer induces an attribute the checker does not know: {k}')
+            setattr(out, k, getattr(v, 'name', v) if k in ('operator', 'quantifier', 'predicate') and v is not None else v)
+        return out
 
     def check_meta_constants(self):
+        "LogicType.Meta defaults evaluated: modal_operators = {Possibility, Necessity}; truth_functional_operators = the other operators."
+        from .minieval import Interp, Obj, Raised
         ref = ClassRef(LOGICS, 'LogicType.Meta')
-        raw, _ = self.m.getraw(ref, 'modal_operators')
-        if raw is None:
-            raise AnalysisError('LogicType.Meta.modal_operators vanished')
-        names = sorted(n.attr for n in ast.walk(raw[1]) if isinstance(n, ast.Attribute)
-                       and isinstance(n.value, ast.Name) and n.value.id == 'Operator')
-        if names != ['Necessity', 'Possibility']:
-            raise AnalysisError(f'LogicType.Meta.modal_operators is no longer {{Possibility, Necessity}}: {names}')
-        raw, _ = self.m.getraw(ref, 'truth_functional_operators')
-        if raw is None or 'set(Operator) - modal_operators' not in ast.unparse(raw[1]):
-            raise AnalysisError('LogicType.Meta.truth_functional_operators is no longer set(Operator) - modal_operators')
+
+        class OpEnum(list):
+            def __getattr__(s_, n):
+                if n in s_:
+                    return n
+                raise AttributeError(n)
+        it = Interp(dict(Operator=OpEnum(self.lex.operators), qsetf=frozenset), where='logics/__init__.py LogicType.Meta')
+        env = {}
+        for name in ('modal_operators', 'truth_functional_operators'):
+            raw, _ = self.m.getraw(ref, name)
+            if raw is None:
+                raise AnalysisError(f'LogicType.Meta.{name} vanished')
+            expr = raw[1] if isinstance(raw[1], ast.AST) else ast.parse(raw[1], mode='eval').body
+            try:
+                env[name] = it.ev(expr, env)
+            except (Raised, TypeError, AttributeError, KeyError) as e:
+                raise AnalysisError(f'LogicType.Meta.{name} does not fold: {getattr(e, "text", e)}')
+        if set(env['modal_operators']) != {'Possibility', 'Necessity'}:
+            raise AnalysisError(f'LogicType.Meta.modal_operators is no longer {{Possibility, Necessity}}: {env["modal_operators"]}')
+        if set(env['truth_functional_operators']) != set(self.lex.operators) - {'Possibility', 'Necessity'}:
+            raise AnalysisError(f'LogicType.Meta.truth_functional_operators is no longer the non-modal operators: {env["truth_functional_operators"]}')
 
     # ---- rule-name induction -------------------------------------------------
-    def induce(self, name) -> RuleAttrs | None:
-        todo = name
-        out = RuleAttrs()
-        dn = name.startswith('DoubleNegation')
-        if dn:
-            out.operator = 'Negation'
-            todo = todo.removeprefix('DoubleNegation')
-        else:
-            for o in self.lex.operators:
-                if todo.startswith(o):
-                    out.operator = o
-                    todo = todo.removeprefix(o)
-                    break
-        for q in self.lex.quantifiers:
-            if todo.startswith(q):
-                out.quantifier = q
-                todo = todo.removeprefix(q)
-                break
-        for p in SYSPREDS:
-            if todo.startswith(p):
-                out.predicate = p
-                todo = todo.removeprefix(p)
-                break
-        if dn:
-            out.negated = True
-        elif todo.startswith('Negated'):
-            out.negated = True
-            todo = todo.removeprefix('Negated')
-        for i, ind in enumerate(('Undesignated', 'Designated')):
-            if todo.startswith(ind):
-                out.designation = bool(i)
-                todo = todo.removeprefix(ind)
-                break
-        return out if not todo else None
-
     def is_intermediate(self, rc: ClassRef):
         kw = self.m.clskw(rc)
         v = kw.get('intermediate')
